@@ -228,7 +228,15 @@ def _work(ctx: Ctx, item):
     ctx.notes["field_class_pairs_visited"] = ctx.notes.get("field_class_pairs_visited", 0) + visited_pairs
 
 
+def _threads(ctx: Ctx, item):
+    from .. import threads
+    threads.decode_pass(ctx, "C01", *item)
+
+
 def run(ctx: Ctx):
+    from .. import threads as _th
+    tk = [d.key for d in _th.thread_definitions()]
+    pmap(ctx, _threads, [(tk[i::16], 2 if ctx.quick else 30, 1000) for i in range(16) if tk[i::16]])
     db = canboat.db()
     keys = [d.key for d in db.defs]
     n_any, n_acc, n_twin = (15, 15, 8) if ctx.quick else (1500, 1500, 200)
@@ -241,6 +249,9 @@ def run(ctx: Ctx):
 
 
 def replay(ctx: Ctx, case):
+    if case.get("threads"):
+        from .. import threads
+        return threads.decode_replay("C01", case)
     ck = Checker(ctx)
     d = canboat.db().by_key[case["definition"]]
     data = bytes.fromhex(case["payload_hex"])
